@@ -602,11 +602,15 @@ fn main() {
         eprintln!("c06: replayed {} cases", st.cases);
         return;
     }
-    // widths of the cursor's / iterators' index fields, measured by the unity build; judged in Lean
-    match std::process::Command::new(&langdump).arg("cwidths").output() {
-        Ok(o) if o.status.success() => out.write_all(&o.stdout).unwrap(),
-        Ok(o) => eprintln!("cwidths probe failed: {}", String::from_utf8_lossy(&o.stderr)),
-        Err(e) => eprintln!("cwidths probe: {e}"),
+    // index fields of the cursor / iterators beyond 16 bits: behavioural probe of the unity build on a flat node of
+    // 70 000 leaves over the symbols of `lst`; judged in Lean
+    if let Some(k) = get_lang("lst", &mut out, &mut loaded) {
+        let so = loaded[k].built.dir.join("lang.so");
+        match std::process::Command::new(&langdump).arg("cwidths").arg(&so).arg(format!("tree_sitter_{}", loaded[k].built.name)).output() {
+            Ok(o) if o.status.success() => out.write_all(&o.stdout).unwrap(),
+            Ok(o) => eprintln!("cwidths probe failed: {}", String::from_utf8_lossy(&o.stderr)),
+            Err(e) => eprintln!("cwidths probe: {e}"),
+        }
     }
     if let Some(corpus) = zoo_corpus("c06") {
         run_specs(&corpus, "c", &mut out, &mut st, &mut loaded, &mut get_lang);
